@@ -26,6 +26,7 @@ type aval interface{}
 
 type aSym struct{ id int } // symbol id; 0 = the constant zero
 type aBool bool
+type aInt struct{ v int64 } // a concrete small integer constant (result codes, counters); arithmetic on these is allowed
 type aNil struct{}
 type aOpaque struct{ what string } // value the fragment may carry around but never inspect
 type aStruct struct{ cells []*aval }
@@ -379,8 +380,11 @@ func (ev *cmpEval) constVal(k *ssa.Const) aval {
 	case constant.Bool:
 		return aBool(constant.BoolVal(k.Value))
 	case constant.Int:
-		if v, ok := constant.Int64Val(k.Value); ok && v == 0 {
-			return aSym{0}
+		if v, ok := constant.Int64Val(k.Value); ok {
+			if v == 0 {
+				return aSym{0}
+			}
+			return aInt{v}
 		}
 		return aOpaque{"int const " + k.Value.String()}
 	case constant.String:
@@ -393,6 +397,31 @@ func (ev *cmpEval) constVal(k *ssa.Const) aval {
 }
 
 func (ev *cmpEval) binop(fn *ssa.Function, x *ssa.BinOp, a, b aval) aval {
+	// concrete integers: the symbol 0 doubles as the integer 0
+	ai, aok := asInt(a)
+	bi, bok := asInt(b)
+	_, aIsInt := a.(aInt)
+	_, bIsInt := b.(aInt)
+	if aok && bok && (aIsInt || bIsInt) {
+		switch x.Op {
+		case token.EQL:
+			return aBool(ai == bi)
+		case token.NEQ:
+			return aBool(ai != bi)
+		case token.LSS:
+			return aBool(ai < bi)
+		case token.LEQ:
+			return aBool(ai <= bi)
+		case token.GTR:
+			return aBool(ai > bi)
+		case token.GEQ:
+			return aBool(ai >= bi)
+		case token.ADD:
+			return mkInt(ai + bi)
+		case token.SUB:
+			return mkInt(ai - bi)
+		}
+	}
 	switch av := a.(type) {
 	case aSym:
 		bv, ok := b.(aSym)
@@ -460,6 +489,25 @@ func (ev *cmpEval) binop(fn *ssa.Function, x *ssa.BinOp, a, b aval) aval {
 	}
 	leave("%s: operator %s on %T/%T outside the fragment at %s", ev.c.FuncName(fn), x.Op, a, b, ev.c.Pos(x.Pos()))
 	return nil
+}
+
+func asInt(v aval) (int64, bool) {
+	switch x := v.(type) {
+	case aInt:
+		return x.v, true
+	case aSym:
+		if x.id == 0 {
+			return 0, true
+		}
+	}
+	return 0, false
+}
+
+func mkInt(v int64) aval {
+	if v == 0 {
+		return aSym{0}
+	}
+	return aInt{v}
 }
 
 func (ev *cmpEval) structEq(a, b *aStruct) bool {
